@@ -25,7 +25,7 @@ ASSUMPTIONS = ["only runs whose premise (truth inside every displayed region in 
 N = {"quick": 200, "thorough": 6000}
 VARS = ["PaVeBa", "PaVeBaGP-IH", "PaVeBaGP-DE", "PartialGP-rect", "PartialGP-ell", "Auer", "Auer-emp", "PaVeBaGP-IH", "PartialGP-rect"]
 REQUIRE = {"quick": {"verdict_runs": 100, "premise_held_runs": 110, **{f"verdict::{v}": 5 for v in set(VARS) if v != "Auer-emp"}}}
-TIMEOUT = {"quick": 1500, "thorough": 7200}
+TIMEOUT = {"quick": 1500, "thorough": 14400}
 
 
 def make(rng, variant):
